@@ -95,6 +95,8 @@ func sortDecl(t *Term) string {
 		return "Bool"
 	case SBV:
 		return fmt.Sprintf("(_ BitVec %d)", t.W)
+	case SInt:
+		return "Int"
 	default:
 		return "String"
 	}
